@@ -25,6 +25,6 @@ echo "== demo WITH patch" >> $log
 cargo test --offline --test $t 2>&1 | grep -E "^test result|^error" >> $log
 rm tests/$(basename $demo)
 echo "== suite WITH patch" >> $log
-cargo nextest run --workspace --no-fail-fast --offline --test-threads 6 2>&1 | grep -E "Summary|FAIL " | head -20 >> $log
+cargo nextest run --workspace --no-fail-fast --offline --test-threads 4 2>&1 | grep -E "Summary|FAIL " | head -20 >> $log
 git checkout -q -- . ; git clean -qfd tests src
 echo "done" >> $log
